@@ -1409,6 +1409,11 @@ def _minmax(I, args, kw, is_max):
             return seq_extreme(I, s, is_max)
     else:
         items = list(args)
+    # min / max with None raises TypeError: an optional operand must be set
+    for j, x in enumerate(items):
+        if isinstance(x, OptVal):
+            I.oblige(f"minmax_not_None@{I.cur_line}", x.present, "safety")
+            items[j] = x.value
     if not items:
         I.fail(f"empty_minmax@{I.cur_line}")
     if all(isinstance(x, (int, float)) for x in items):
@@ -4015,3 +4020,21 @@ def _os_remove(I, p):
     if not I.spec and I.fork(st == FileState.Absent):
         raise E.RaiseEx("FileNotFoundError", I.cur_line)
     fs_set(I, p, FileState.Absent)
+
+
+@lib("numpy.reciprocal")
+def _np_reciprocal(I, x, **kw):
+    """1/x -- in the array's own dtype: for an INTEGER array the result is
+    the integer quotient (0 for |x| > 1)"""
+    v = _val(x)
+    if isinstance(v, SymSeq):
+        if v.elem == "Int":
+            def g(i):
+                t = to_int(v.get(i))
+                return z3.If(t == 1, 1, z3.If(t == -1, -1, 0))
+            return Cell("arr", SymSeq(v.length, g, "Int"))
+        return Cell("arr", SymSeq(v.length,
+                                  lambda i: 1 / to_real(v.get(i)), "Real"))
+    if is_z3(v) and z3.is_int(v):
+        return z3.If(v == 1, 1, z3.If(v == -1, -1, 0))
+    return 1 / to_real(v)
